@@ -158,6 +158,9 @@ SpStep(P, X, dev, g) ==
               \o (IF e.d = g.tgt THEN (IF rec THEN GoSeg(e.gd, g.dst, "dn") ELSE <<>>)
                   ELSE <<Sp(g.z, e.d, g.tgt, e.gd, g.a, g.dst, FALSE)>>),
      fl |-> (IF rec /\ ~g.first /\ g.pg # e.gs /\ zr.kind \in {"dijkstra", "dijkstracache"} THEN {"djkgw"} ELSE {})
+            \cup (IF rec /\ g.first /\ e.gs # 0 /\ e.gs # g.a /\ P.np[e.gs].z \notin SeqSet(NPath(P, g.a)) THEN {"offchain"} ELSE {})
+            \cup (IF rec /\ e.d = g.tgt /\ e.gd # 0 /\ e.gd # g.dst /\ P.np[e.gd].z \notin SeqSet(NPath(P, g.dst))
+                  THEN {"offchain"} ELSE {})
             \cup (IF rec /\ (e.gs = 0 \/ e.gd = 0) THEN {"nogw"} ELSE {})
             \cup (IF zr.kind \in {"dijkstra", "dijkstracache"} /\ Len(e.l) > 1 THEN {"djkrev"} ELSE {}),
      vt |-> <<>>,
@@ -233,7 +236,10 @@ Succ(P, X, dev, s) ==
             e |-> <<>>] : x \in Expand(P, X, dev, g) }
     [] g.t = "sp" ->
          { [s |-> [s EXCEPT !.stk = x.push \o rest, !.seen = @ \cup x.pts,
-                            !.fl = @ \cup x.fl \cup (IF x.pts \cap s.seen # {} THEN {"revisit"} ELSE {})],
+                            !.fl = @ \cup x.fl \cup (IF x.pts \cap s.seen # {} THEN {"revisit"} ELSE {})
+                                   \* (classification only) a Dijkstra zone asked to complete a route under construction
+                                   \cup (IF P.nz[g.z].kind \in {"dijkstra", "dijkstracache"} /\ "bypass" \in s.fl
+                                         THEN {"djkpre"} ELSE {})],
             e |-> <<>>] : x \in SpStep(P, X, dev, g) }
     [] g.t = "cl" ->
          { [s |-> [s EXCEPT !.stk = (IF x.pop THEN <<>> ELSE <<x.g>>) \o rest,
